@@ -168,17 +168,33 @@ def chunk_count(prog, rep, ver, mod):
     rule = "R2-B7-chunk-count"
     cf = prog.one(mod + "::PacketContents::can_fit_chunk")
     ir = IR(cf)
-    # the result depends on a comparison of num_chunks with a constant <= 255 on the true path
-    ok = False
+    # can_fit_chunk can answer `true` only where num_chunks < u8::MAX is known: every block that stores anything but the constant
+    # `false` into the return place is dominated by a branch edge that bounds num_chunks below 255 (in whatever form it is written:
+    # `n < 255 && ..`, an early `return false` on `n == 255`, `n != u8::MAX`, ...)
+    from .common import holds_at, FLIP
+    def _bounded(bi):
+        for r in holds_at(ir, bi):
+            if r[0] == "bool":
+                continue
+            a, o, b_ = r
+            if "num_chunks" in show(b_) and a[0] == "c":
+                a, o, b_ = b_, FLIP[o], a
+            if "num_chunks" not in show(a) or b_[0] != "c":
+                continue
+            k = b_[1]
+            ub = {"Lt": k - 1, "Le": k, "Ne": 254 if k == 255 else None, "Eq": k}.get(o)
+            if ub is not None and ub <= 254:
+                return True
+        return False
+    stores = []
     for bi in sorted(cf.live):
-        t = cf.blocks[bi]["term"]
-        if t["k"] != "switch":
-            continue
-        e, neg = strip_not(ir.term_operand(bi, t["o"]))
-        if e[0] == "bin" and e[1] in ("Lt", "Le", "Ne") and "num_chunks" in show(e[2]) and e[3][0] == "c":
-            lim = e[3][1] if e[1] in ("Lt", "Ne") else e[3][1] + 1
-            if lim <= 255:
-                ok = True
+        for si, st in enumerate(cf.blocks[bi]["st"]):
+            if st["k"] == "assign" and st["p"]["l"] == 0 and not st["p"].get("pr"):
+                v = ir.rvalue(st["r"], (bi, si))
+                if v[0] == "c" and v[1] == 0:
+                    continue
+                stores.append(bi)
+    ok = bool(stores) and all(_bounded(bi) for bi in stores)
     rep.ob(rule, "%s | can_fit_chunk reads num_chunks" % ver, ok,
            "a packet with u8::MAX chunks is full" if ok else
            "the admission predicate ignores num_chunks: 256 small chunks overflow the u8 counter", cf.loc())
@@ -221,17 +237,12 @@ def chunk_count(prog, rep, ver, mod):
             w = [(bi, t) for bi, t in b.calls() if (t.get("callee") or "").endswith("PacketContents::write_chunk")]
             for bi, t in w:
                 n += 1
-                okw = False
-                cfl = _can_fit_locals(bir)
-                for e, rel, v, edge, dty in bir.edge_conditions(bi):
-                    txt = show(e)
-                    if ("can_fit_chunk" in txt or (e[0] == "var" and e[1] in cfl)) and \
-                       ((rel == "==" and v == 1) or (rel == "notin" and 0 in v)):
-                        okw = True
+                # every path to the write passes an admission edge (however the decision is spelled)
+                adm, defs_ok, _he = resend_admission(b, bir, mod, _sent_field(prog, mod))
+                okw = bool(adm) and bi not in b.reachable_from(0, removed_edges=frozenset(adm))
                 # the can_fit variable: all its definitions involve can_fit_chunk(..) (possibly OR-ed with `num_chunks == 0`)
                 rep.ob(rule, "%s | resend: write_chunk under can_fit" % ver, okw,
                        "resend writes a chunk only when can_fit held" if okw else "resend writes without the admission test", b.loc(t.get("ln")))
-                defs_ok = _can_fit_defs_ok(b, bir, mod)
                 rep.ob(rule, "%s | resend: can_fit is can_fit_chunk() or empty-packet" % ver, defs_ok,
                        "can_fit = can_fit_chunk(..) [|| packet.num_chunks == 0]" if defs_ok else
                        "can_fit in resend is computed from something else", b.loc())
@@ -275,11 +286,22 @@ def _switch_after(body, bb):
 
 
 def _can_fit_locals(ir):
-    """locals that hold the value of `can_fit` (the named variable and the temporaries copied into it)"""
+    """bool locals that hold the admission decision: the destination of a can_fit_chunk() call, a local that is set to `true`
+    under the can_fit_chunk() == true edge (the lowering of `can_fit_chunk(..) || ..`), and the temporaries copied into them"""
     out = set()
-    for l in ir.defs:
-        if (ir.lname(l) or "") == "can_fit":
-            out.add(l)
+    for l, ds in ir.defs.items():
+        if ir.ltystr(l) != "bool":
+            continue
+        for (bi, si, kind, node) in ds:
+            if kind != "assign":
+                if "can_fit_chunk" in (node.get("callee") or ""):
+                    out.add(l)
+            else:
+                r = node["r"]
+                if r["k"] == "use" and "c" in r["o"] and r["o"]["c"].get("v") == 1:
+                    for c, rel, v, edge, dty in ir.edge_conditions(bi):
+                        if "can_fit_chunk" in show(c) and ((rel == "==" and v == 1) or (rel == "notin" and 0 in v)):
+                            out.add(l)
     work = list(out)
     while work:
         l = work.pop()
@@ -292,7 +314,43 @@ def _can_fit_locals(ir):
     return out
 
 
-def _can_fit_defs_ok(b, ir, mod):
+def _is_empty_test(e, sent="packet"):
+    """`<sent packet>.num_chunks == 0` / `.is_empty()`: the emptiness of the packet that is written and flushed, not of a sibling"""
+    txt = show(strip_sites(e))
+    return (e[0] == "bin" and e[1] == "Eq" and ("." + sent + ".num_chunks") in txt and e[3][0] == "c" and e[3][1] == 0) or \
+           (e[0] == "call" and e[1].endswith("is_empty") and ("." + sent) in txt and ("." + sent + "_") not in txt)
+
+
+def resend_admission(b, ir, mod, sent="packet"):
+    """(pass edges, defs_ok, has_empty): the edges of `b` on which a chunk is admitted into the packet -- the true edge of a test
+    of can_fit_chunk(..), of `num_chunks == 0`, or of a bool local that holds such a decision (whatever it is called)"""
+    cfl = _can_fit_locals(ir)
+    edges = set()
+    has_empty = False
+    var_used = False
+    for bi in sorted(b.live):
+        t = b.blocks[bi]["term"]
+        if t["k"] != "switch" or t.get("dty") != "bool":
+            continue
+        e, neg = strip_not(ir.term_operand(bi, t["o"]))
+        if e[0] == "call" and e[1].endswith("PacketContents::can_fit_chunk"):
+            edges.add((bi, bool_edge(b, bi, not neg)))
+        elif _is_empty_test(e, sent):
+            has_empty = True
+            edges.add((bi, bool_edge(b, bi, not neg)))
+        elif e[0] == "var" and e[1] in cfl:
+            edges.add((bi, bool_edge(b, bi, not neg)))
+            if len(ir.defs.get(e[1], [])) > 1:
+                var_used = True
+    for l in cfl:
+        for (bi, si, kind, node) in ir.defs.get(l, []):
+            if kind == "assign" and _is_empty_test(ir.rvalue(node["r"], (bi, si)), sent):
+                has_empty = True
+    defs_ok = _can_fit_defs_ok(b, ir, mod, sent) if var_used else bool(edges)
+    return edges, defs_ok, has_empty
+
+
+def _can_fit_defs_ok(b, ir, mod, sent="packet"):
     ls = _can_fit_locals(ir)
     if not ls:
         return False
@@ -306,7 +364,7 @@ def _can_fit_defs_ok(b, ir, mod):
             if "can_fit_chunk" in txt:
                 seen_fit = True
                 continue
-            if e[0] == "bin" and e[1] == "Eq" and "num_chunks" in txt and e[3][0] == "c" and e[3][1] == 0:
+            if _is_empty_test(e, sent):
                 continue
             if e[0] == "c":
                 if e[1] == 0:
